@@ -639,8 +639,8 @@ class MeiParser(object):
             # sanity check to verify the divs are correctly set
             assert duration == int(duration)
 
-        # find id
-        id = el.attrib[self._ns_name("id", XML_NAMESPACE)]
+        # find id (an element need not have one: a <space> usually has none)
+        id = el.get(self._ns_name("id", XML_NAMESPACE))
         return id, int(duration), symbolic_duration
 
     def _handle_note(self, note_el, position, voice, staff, part) -> int:
